@@ -49,7 +49,7 @@ def placement_cases(L):
     i = 0
     for fault in FAULTS:
         for p in range(L):
-            for fill in itertools.product(['far', 'close'], repeat=L - 1):
+            for fill in itertools.product(['far', 'close', 'zero'], repeat=L - 1):
                 seq = list(fill[:p]) + [fault] + list(fill[p:])
                 for errors in ERRORS:
                     for catch in (True, False):
@@ -103,7 +103,7 @@ def offset_cases(rng, count):
         if not offs:
             continue
         off = rng.choice(offs)
-        seq = [rng.choice(['far', 'close', 'same', 'nan', 'pinf', 'raise', 'warn']) for _ in range(rng.randint(0, 4))]
+        seq = [rng.choice(['far', 'close', 'same', 'nan', 'pinf', 'ninf', 'zero', 'raise', 'warn']) for _ in range(rng.randint(0, 4))]
         M = rng.choice([1, 2, 3, 5])
         o = mkopts(rng.choice([0, 0, 1, 2]) if M > 1 else 0, M, off, rng.choice(['raise', 'ignore']), rng.choice(ERRORS),
                    rng.choice([True, False]))
@@ -372,6 +372,11 @@ def _work(ctx, rep):
     check_cases(ctx, rep, list(hook_cases(rng, (2000 if ctx.tier == 'quick' else 200000) * ctx.scale // ctx.parts)), 'hooks')
     rng = ctx.sub_rng('offsets')
     check_cases(ctx, rep, list(offset_cases(rng, (2500 if ctx.tier == 'quick' else 200000) * ctx.scale // ctx.parts)), 'offset')
+    from props.c02 import dtype_case, scale_case
+    rng = ctx.sub_rng('dtype')
+    check_cases(ctx, rep, [dtype_case(rng) for _ in range((1000 if ctx.tier == 'quick' else 100000) * ctx.scale // ctx.parts)], 'dtype')
+    rng = ctx.sub_rng('scale')
+    check_cases(ctx, rep, [scale_case(rng, False) for _ in range((6 if ctx.tier == 'quick' else 100) * ctx.scale // ctx.parts)], 'scale')
     rng = ctx.sub_rng('extremes')
     check_cases(ctx, rep, list(extreme_cases(rng, (1500 if ctx.tier == 'quick' else 150000) * ctx.scale // ctx.parts)), 'extremes')
     rng = ctx.sub_rng('natural')
